@@ -227,7 +227,7 @@ func runEdge(e *Edge, isSync bool) (obs Step, kind, detail string) {
 // waitCallbacks lets asynchronously delivered callbacks arrive: it waits until at least want are recorded
 // (want < 0: just settle), then yields a little so that a surplus callback would be seen as well.
 func waitCallbacks(r *real, want int) {
-	deadline := time.Now().Add(3 * time.Second)
+	deadline := time.Now().Add(20 * time.Second)
 	for want > 0 && r.count() < want && time.Now().Before(deadline) {
 		runtime.Gosched()
 	}
